@@ -89,12 +89,15 @@ def discArms (validate : Bool) (ds : List Expr) : List Arm :=
   ds.zipIdx.map fun (d, k) =>
     .mk (.ctor k .self_ false) (if validate then .validateConst k d else d) (k + 1 != n)
 
+/-- `__discriminant(x)`. -/
+def discCall (body : Expr) (x : Var) : Expr := .discFnCall body (.var x)
+
 /-- `build_discriminant_comparison`. -/
 def discriminantComparison (repr : Option IntTy) (validate : Option (List Stmt))
     (ds : List Expr) (m : TraitFn) : Blk :=
   let body := Expr.match_ (.var .this) (discArms validate.isSome ds)
   { stmts := [.discFn (repr.getD .isize) (validate.getD []) body]
-    tail := .call (.traitFn m) [.ref (.discFnCall body vSelf), .ref (.discFnCall body vOther)] }
+    tail := .call (.traitFn m) [.ref (discCall body .self_), .ref (discCall body .other)] }
 
 /-- `*self as R` / `Clone::clone(self) as R` / pointer read, wrapped in the
 method call. -/
@@ -142,52 +145,63 @@ def ordIncStmts (vs : List Data) : List Stmt :=
   | some p => [.ifRet (matchesEither p) .none_]
   | none => []
 
+/-- `body_equal` of `build_ord_signature`. -/
+def ordBodyEqual (c : Cfg) (item : Item) (vs : List Data) (t : Trait) (arms : List Arm) : Option Expr :=
+  if item.isEmpty t then none
+  else if vs.any (fun v => v.isEmpty t && !v.incomparable) then
+    some (.match_ tupleSO (arms ++ [.mk .wild (equalExpr t) true]))
+  else some (.match_ tupleSO (arms ++ [.mk .wild (unreachableRest c) true]))
+
+/-- The branch of `build_ord_signature` for exactly one comparable variant. -/
+def ordSingleComparable (t : Trait) (incP : Pat) (comparable : Data) (bodyEqual : Option Expr) : Expr :=
+  .ifElse (matchesEither incP) .none_
+    (if comparable.isEmpty t then equalExpr t else bodyEqual.getD (equalExpr t))
+
+def letDiscs (f : Fn) : List Stmt :=
+  [.let_ (.bind .move_ .selfDisc) (.call f [vSelf]), .let_ (.bind .move_ .otherDisc) (.call f [vOther])]
+
+def discsEqual : Expr := .binop .eq (.var .selfDisc) (.var .otherDisc)
+
+/-- The `nightly` branch of `build_ord_signature`. -/
+def ordNightly (vs : List Data) (m : TraitFn) (bodyEqual : Option Expr) : Expr :=
+  match bodyEqual with
+  | some be =>
+    .block (ordIncStmts vs ++ letDiscs .discriminantValue)
+      (.ifElse discsEqual be (.call (.traitFn m) [.ref (.var .selfDisc), .ref (.var .otherDisc)]))
+  | none =>
+    (Blk.mk (ordIncStmts vs) (.callT (.traitFn m)
+      [.ref (.call .discriminantValue [vSelf]), .ref (.call .discriminantValue [vOther])])).toExpr
+
+/-- The non-`nightly` branch of `build_ord_signature`. -/
+def ordStable (vs : List Data) (bodyElse : Blk) (bodyEqual : Option Expr) : Expr :=
+  match bodyEqual with
+  | some be =>
+    .block (ordIncStmts vs ++ letDiscs .memDiscriminant) (.ifElse discsEqual be bodyElse.toExpr)
+  | none => (Blk.mk (ordIncStmts vs ++ bodyElse.stmts) bodyElse.tail).toExpr
+
+/-- The multi-variant branch of `build_ord_signature`. -/
+def ordMulti (c : Cfg) (item : Item) (dw : DeriveWhere) (t : Trait) (arms : List Arm)
+    (disc : Discriminant) (vs : List Data) : Expr :=
+  let bodyEqual := ordBodyEqual c item vs t arms
+  match vs.filter (!·.incomparable) with
+  | [comparable] =>
+    -- `expect`: cannot fail, a list with one comparable variant among several has an incomparable one
+    ordSingleComparable t ((incomparablePattern vs).getD .wild) comparable bodyEqual
+  | _ =>
+    if c.nightly then ordNightly vs (ordFn t) bodyEqual
+    else ordStable vs (ordBodyElse c dw disc vs (ordFn t)) bodyEqual
+
 /-- `build_ord_signature`. `arms` is the concatenation of the `build_body`
 results. -/
 def ordSignature (c : Cfg) (item : Item) (dw : DeriveWhere) (t : Trait) (arms : List Arm) : Expr :=
-  let equal := equalExpr t
   if item.isIncomparable then Expr.none_
   else match item with
   | .enum_ disc _ _ vs =>
-    if vs.length > 1 then
-      let bodyEqual : Option Expr :=
-        if item.isEmpty t then none
-        else if vs.any (fun v => v.isEmpty t && !v.incomparable) then
-          some (.match_ tupleSO (arms ++ [.mk .wild equal true]))
-        else some (.match_ tupleSO (arms ++ [.mk .wild (unreachableRest c) true]))
-      let inc := incomparablePattern vs
-      match vs.filter (!·.incomparable) with
-      | [comparable] =>
-        let incP := inc.getD .wild   -- `expect`: unreachable, there is an incomparable variant
-        let eq' := if comparable.isEmpty t then equal else bodyEqual.getD equal
-        .ifElse (matchesEither incP) .none_ eq'
-      | _ =>
-        let incStmts : List Stmt := ordIncStmts vs
-        let m := ordFn t
-        if c.nightly then
-          match bodyEqual with
-          | some be =>
-            .block (incStmts ++
-                [.let_ (.bind .move_ .selfDisc) (.call .discriminantValue [vSelf]),
-                 .let_ (.bind .move_ .otherDisc) (.call .discriminantValue [vOther])])
-              (.ifElse (.binop .eq (.var .selfDisc) (.var .otherDisc)) be
-                (.call (.traitFn m) [.ref (.var .selfDisc), .ref (.var .otherDisc)]))
-          | none =>
-            (Blk.mk incStmts (.callT (.traitFn m)
-              [.ref (.call .discriminantValue [vSelf]), .ref (.call .discriminantValue [vOther])])).toExpr
-        else
-          let bodyElse := ordBodyElse c dw disc vs m
-          match bodyEqual with
-          | some be =>
-            .block (incStmts ++
-                [.let_ (.bind .move_ .selfDisc) (.call .memDiscriminant [vSelf]),
-                 .let_ (.bind .move_ .otherDisc) (.call .memDiscriminant [vOther])])
-              (.ifElse (.binop .eq (.var .selfDisc) (.var .otherDisc)) be bodyElse.toExpr)
-          | none => (Blk.mk (incStmts ++ bodyElse.stmts) bodyElse.tail).toExpr
-    else if item.isEmpty t then equal
+    if vs.length > 1 then ordMulti c item dw t arms disc vs
+    else if item.isEmpty t then equalExpr t
     else .match_ tupleSO arms
   | .item _ =>
-    if item.isEmpty t then equal
+    if item.isEmpty t then equalExpr t
     else .match_ tupleSO arms
 
 /-! ## `trait_/partial_eq.rs` -/
